@@ -16,10 +16,10 @@
 EXTENDS Integers, Sequences, FiniteSets, TLC, Json, IOUtils
 Rec == ndJsonDeserialize(IOEnv.TRACE)
 
-VARIABLES l, run, cfg, viol, hits, nruns, lastFresh,
+VARIABLES l, run, cfg, viol, hits, nruns, lastFresh, curEdge, maxRxEnd,
           wrT, dl, closedAt, accPre, accInt, finAcc, advEdge, lastAckEm, synWs, maxEdge, zeroRecent, maxSent,
           peerMss, maxAckRcvd, twEntry, twLastRx, rstSeen, scripted
-conn == <<lastFresh, wrT, dl, closedAt, accPre, accInt, finAcc, advEdge, lastAckEm, synWs, maxEdge, zeroRecent, maxSent,
+conn == <<lastFresh, curEdge, maxRxEnd, wrT, dl, closedAt, accPre, accInt, finAcc, advEdge, lastAckEm, synWs, maxEdge, zeroRecent, maxSent,
           peerMss, maxAckRcvd, twEntry, twLastRx, rstSeen, scripted>>
 vars == <<l, run, cfg, viol, hits, nruns, conn>>
 
@@ -50,7 +50,7 @@ RECURSIVE Adv(_, _)
 Adv(pre, s) == IF s # <<>> /\ Head(s)[1] <= pre + 1 THEN Adv(Max(pre, Head(s)[2] - 1), Tail(s)) ELSE [pre |-> pre, s |-> s]
 
 InitConn ==
-  /\ lastFresh = Fn(0)
+  /\ lastFresh = Fn(0) /\ curEdge = Fn(0) /\ maxRxEnd = Fn(0)
   /\ wrT = Fn(0) /\ dl = Fn(0) /\ closedAt = Fn(-1) /\ accPre = Fn(0) /\ accInt = Fn(<<>>) /\ finAcc = Fn(-1)
   /\ advEdge = Fn(0) /\ lastAckEm = Fn(0) /\ synWs = Fn(-1) /\ maxEdge = Fn(0) /\ zeroRecent = Fn(0) /\ maxSent = Fn(0)
   /\ peerMss = Fn(-1) /\ maxAckRcvd = Fn(0) /\ twEntry = Fn(-1) /\ twLastRx = Fn(-1) /\ rstSeen = FALSE /\ scripted = Fn(FALSE)
@@ -147,7 +147,7 @@ Step ==
      CASE r.ev = "reset" ->
             /\ Flush
             /\ run' = r.run /\ cfg' = r.cfg /\ viol' = <<>> /\ nruns' = nruns + 1 /\ hits' = hits
-            /\ lastFresh' = Fn(0)
+            /\ lastFresh' = Fn(0) /\ curEdge' = Fn(0) /\ maxRxEnd' = Fn(0)
             /\ wrT' = Fn(0) /\ dl' = Fn(0) /\ closedAt' = Fn(-1) /\ accPre' = Fn(0) /\ accInt' = Fn(<<>>) /\ finAcc' = Fn(-1)
             /\ advEdge' = Fn(0) /\ lastAckEm' = Fn(0) /\ synWs' = Fn(-1) /\ maxEdge' = Fn(0) /\ zeroRecent' = Fn(0) /\ maxSent' = Fn(0)
             /\ peerMss' = Fn(-1) /\ maxAckRcvd' = Fn(0) /\ twEntry' = Fn(-1) /\ twLastRx' = Fn(-1) /\ rstSeen' = FALSE
@@ -163,12 +163,12 @@ Step ==
                    /\ wrT' = [wrT EXCEPT ![e] = @ + (IF r.ret > 0 THEN r.ret ELSE 0)]
                    /\ viol' = AddAll(viol, tv \o pv)
                    /\ hits' = [hits EXCEPT !["L1"] = @ + 1]
-                   /\ UNCHANGED <<dl, closedAt, accPre, accInt, finAcc, advEdge, lastAckEm, synWs, maxEdge, zeroRecent, maxSent, peerMss, maxAckRcvd, twEntry, twLastRx, rstSeen, scripted, lastFresh>>
+                   /\ UNCHANGED <<dl, closedAt, accPre, accInt, finAcc, advEdge, lastAckEm, synWs, maxEdge, zeroRecent, maxSent, peerMss, maxAckRcvd, twEntry, twLastRx, rstSeen, scripted, lastFresh, curEdge, maxRxEnd>>
               [] r.call = "close" ->
                    /\ closedAt' = [closedAt EXCEPT ![e] = IF @ = -1 THEN r.at ELSE @]
                    /\ viol' = AddAll(viol, tv \o pv)
                    /\ hits' = [hits EXCEPT !["T1"] = @ + 1]
-                   /\ UNCHANGED <<wrT, dl, accPre, accInt, finAcc, advEdge, lastAckEm, synWs, maxEdge, zeroRecent, maxSent, peerMss, maxAckRcvd, twEntry, twLastRx, rstSeen, scripted, lastFresh>>
+                   /\ UNCHANGED <<wrT, dl, accPre, accInt, finAcc, advEdge, lastAckEm, synWs, maxEdge, zeroRecent, maxSent, peerMss, maxAckRcvd, twEntry, twLastRx, rstSeen, scripted, lastFresh, curEdge, maxRxEnd>>
               [] r.call = "recv" ->
                    LET p == 1 - e
                        n == IF r.ret > 0 THEN r.ret ELSE 0
@@ -181,12 +181,12 @@ Step ==
                       /\ viol' = AddAll(viol, p1 \o p3 \o r2 \o p2 \o tv \o pv)
                       /\ hits' = [hits EXCEPT !["P1"] = @ + (IF n > 0 THEN 1 ELSE 0), !["R2"] = @ + (IF n > 0 THEN 1 ELSE 0),
                                               !["P3"] = @ + (IF n > 0 THEN 1 ELSE 0), !["P2"] = @ + (IF r.err = "finished" THEN 1 ELSE 0)]
-                      /\ UNCHANGED <<wrT, closedAt, accPre, accInt, finAcc, advEdge, lastAckEm, synWs, maxEdge, zeroRecent, maxSent, peerMss, maxAckRcvd, twEntry, twLastRx, rstSeen, scripted, lastFresh>>
+                      /\ UNCHANGED <<wrT, closedAt, accPre, accInt, finAcc, advEdge, lastAckEm, synWs, maxEdge, zeroRecent, maxSent, peerMss, maxAckRcvd, twEntry, twLastRx, rstSeen, scripted, lastFresh, curEdge, maxRxEnd>>
               [] OTHER ->    \* listen, connect, abort
                    /\ viol' = AddAll(viol, tv \o pv)
                    /\ hits' = [hits EXCEPT !["T1"] = @ + 1]
                    /\ rstSeen' = (rstSeen \/ r.call = "abort")
-                   /\ UNCHANGED <<wrT, dl, closedAt, accPre, accInt, finAcc, advEdge, lastAckEm, synWs, maxEdge, zeroRecent, maxSent, peerMss, maxAckRcvd, twEntry, twLastRx, scripted, lastFresh>>
+                   /\ UNCHANGED <<wrT, dl, closedAt, accPre, accInt, finAcc, advEdge, lastAckEm, synWs, maxEdge, zeroRecent, maxSent, peerMss, maxAckRcvd, twEntry, twLastRx, scripted, lastFresh, curEdge, maxRxEnd>>
        [] r.ev = "rx" ->
             LET e == r.ep
                 p == 1 - e
@@ -208,7 +208,10 @@ Step ==
                 fin2 == IF takes /\ g.fin /\ finPos <= advEdge[e] THEN finPos ELSE fin0
                 finInOrder == good /\ g.fin /\ ~g.rst /\ fin2 = finPos /\ pre2 >= finPos - 1 /\ finPos <= advEdge[e]
                 ackOfFin == good /\ g.ha /\ closedAt[e] # -1 /\ g.ack = closedAt[e] + 2
-                rstOK == good /\ g.rst /\ g.seq + g.len >= lastAckEm[e] /\ g.seq <= Max(advEdge[e], pre2 + 1)
+                \* in window: RCV.NXT <= SEG.SEQ < RCV.NXT + RCV.WND, or SEG.SEQ = RCV.NXT when the window is closed (the monitor
+                \* knows RCV.NXT only as the acknowledged / accepted frontier, either of which is allowed)
+                rstOK == good /\ g.rst /\ g.seq + g.len >= lastAckEm[e]
+                         /\ (g.seq < Max(advEdge[e], pre2 + 1) \/ g.seq = pre2 + 1 \/ g.seq = lastAckEm[e])
                 \* what e learns as a sender from g
                 shp == IF g.syn THEN 0 ELSE Shift(p)
                 learn == good /\ g.ha /\ ~g.rst
@@ -218,7 +221,16 @@ Step ==
                 zr2 == IF learn /\ g.win = 0 THEN 8 ELSE IF learn THEN Max(zeroRecent[e] - 1, 0) ELSE zeroRecent[e]
                 mss2 == IF hsSyn THEN g.mss ELSE peerMss[e]
                 mar2 == IF learn THEN Max(maxAckRcvd[e], g.ack) ELSE maxAckRcvd[e]
-                ov == OutsViol(e, r.out, pre2, fin2, IF newConn THEN 0 ELSE maxSent[e], r.post.rq, sw2, [me |-> me2, zr |-> zr2, mss |-> mss2, mar |-> mar2])
+                \* The window "learned from the peer" when the peer shrinks it: a segment the socket has certainly accepted
+                \* (plain, valid, at or beyond everything delivered so far yet inside the advertised window, acknowledging
+                \* something between the highest ACK seen and the highest sequence sent) resets the bound to its own edge;
+                \* any other window-bearing segment delivered later may or may not have been taken and can only raise it.
+                newE == g.ack + g.win * Pow2(shp)
+                certain == learn /\ ~g.syn /\ ~g.fin /\ r.before \in DataStates \cup {"FIN-WAIT-2"} /\ r.before = r.post.st
+                           /\ g.seq >= Max(maxRxEnd[e], 1) /\ g.seq < advEdge[e] /\ g.ack >= maxAckRcvd[e] /\ g.ack <= maxSent[e]
+                ce2 == IF newConn THEN 0 ELSE IF certain THEN newE ELSE IF learn /\ curEdge[e] > 0 THEN Max(curEdge[e], newE) ELSE curEdge[e]
+                meJ == IF ce2 > 0 THEN ce2 ELSE me2
+                ov == OutsViol(e, r.out, pre2, fin2, IF newConn THEN 0 ELSE maxSent[e], r.post.rq, sw2, [me |-> meJ, zr |-> zr2, mss |-> mss2, mar |-> mar2])
                 tv == IF ~IsTcp(g) THEN <<>>
                       ELSE IF EdgeOK(e, r.before, r.post.st, "rx", g, "", finInOrder, ackOfFin, rstOK, r.now) THEN <<>>
                       ELSE IF g.rst THEN << <<l, "T3", e, r.before, r.post.st, g.seq, lastAckEm[e], advEdge[e]>> >>
@@ -247,12 +259,14 @@ Step ==
                                        !["T3"] = @ + (IF IsTcp(g) /\ g.rst THEN 1 ELSE 0)]
                \* certain evidence that the socket accepted g: it changed state, or acknowledged new data in the same poll
                /\ lastFresh' = [lastFresh EXCEPT ![e] = IF good /\ (r.before # r.post.st \/ f.la > lastAckEm[e]) THEN r.now ELSE @]
+               /\ curEdge' = [curEdge EXCEPT ![e] = ce2]
+               /\ maxRxEnd' = [maxRxEnd EXCEPT ![e] = IF good THEN Max(@, g.seq + SegLen(g)) ELSE @]
                /\ UNCHANGED <<wrT, dl, closedAt, scripted>>
        [] r.ev \in {"egress", "probe"} ->
             LET e == r.ep
                 before == IF "before" \in DOMAIN r THEN r.before ELSE r.post.st
                 f == OutsFold(e, r.out, [edge |-> advEdge[e], la |-> lastAckEm[e], ms |-> maxSent[e], ws |-> synWs[e], rst |-> FALSE], synWs)
-                ov == OutsViol(e, r.out, accPre[e], finAcc[e], maxSent[e], r.post.rq, synWs, [me |-> maxEdge[e], zr |-> zeroRecent[e], mss |-> peerMss[e], mar |-> maxAckRcvd[e]])
+                ov == OutsViol(e, r.out, accPre[e], finAcc[e], maxSent[e], r.post.rq, synWs, [me |-> IF curEdge[e] > 0 THEN curEdge[e] ELSE maxEdge[e], zr |-> zeroRecent[e], mss |-> peerMss[e], mar |-> maxAckRcvd[e]])
                 tv == IF EdgeOK(e, before, r.post.st, "egress", [x |-> 0], "", FALSE, FALSE, FALSE, r.now) THEN <<>>
                       ELSE << <<l, "T1", e, before, r.post.st, "egress">> >>
                 \* T2: TIME-WAIT ends by itself 10 s after entry (re-armed at most by segments received meanwhile)
@@ -271,7 +285,7 @@ Step ==
                /\ viol' = AddAll(viol, ov \o tv \o t2 \o q1 \o q2 \o PostViol(e, r.post, r.now))
                /\ hits' = [hits EXCEPT !["S1"] = @ + Len(r.out), !["L1"] = @ + 1, !["Q1"] = @ + (IF r.ev = "probe" THEN 1 ELSE 0),
                                        !["Q2"] = @ + (IF r.out = <<>> THEN 1 ELSE 0), !["T2"] = @ + (IF before = "TIME-WAIT" THEN 1 ELSE 0)]
-               /\ UNCHANGED <<wrT, dl, closedAt, accPre, accInt, finAcc, maxEdge, zeroRecent, peerMss, maxAckRcvd, twEntry, twLastRx, scripted, lastFresh>>
+               /\ UNCHANGED <<wrT, dl, closedAt, accPre, accInt, finAcc, maxEdge, zeroRecent, peerMss, maxAckRcvd, twEntry, twLastRx, scripted, lastFresh, curEdge, maxRxEnd>>
        [] r.ev = "end" ->
             LET done == \A e \in EPS : r.post[e + 1].st = "CLOSED" /\ r.read[e + 1] = r.written[2 - e] /\ r.finished[e + 1]
                 l2 == IF r.how = "quiescent" /\ ~rstSeen /\ ~done
@@ -284,7 +298,7 @@ Step ==
             /\ viol' = Add(viol, <<l, "PANIC", r.ep, r.msg>>)
             /\ hits' = [hits EXCEPT !["PANIC"] = @ + 1]
             /\ UNCHANGED conn
-       [] OTHER -> UNCHANGED <<viol, hits, conn, lastFresh>>
+       [] OTHER -> UNCHANGED <<viol, hits, conn, lastFresh, curEdge, maxRxEnd>>
   /\ (Rec[l].ev = "reset" \/ UNCHANGED <<run, cfg, nruns>>)
 Spec == Init /\ [][Step]_vars
 Final == l = Len(Rec) + 1 => /\ Flush
